@@ -277,6 +277,8 @@ func runPersistCase(t *testing.T, dir string, c pCase) (coq string, problems []s
 		checkpoint()
 
 		for _, s := range c.Steps {
+			time.Sleep(time.Millisecond) // creation and update times must differ between calls
+
 			switch s.Kind {
 			case "loadfail":
 				// takes effect at the next reopening
